@@ -588,6 +588,9 @@ pub fn replay_hist(h: &Hist, replay: &Value) -> Vec<Violation> {
     let acts: Vec<Action> = replay["actions"].as_array().unwrap().iter().map(|v| serde_json::from_value(v.clone()).unwrap()).collect();
     for (i, a) in acts.iter().enumerate() {
         let step = h.step(&st, a);
+        if std::env::var("VERIF_TRACE").is_ok() {
+            eprintln!("replay step {i}: {:?} -> {}", a, step.class);
+        }
         if i + 1 == acts.len() {
             out = step.violations;
         }
